@@ -69,6 +69,26 @@ theorem decodeRune_take_noLF (b0 : UInt8) (t : Bytes) (h : b0 ≠ 0x0A) :
     subst e
     simp_all [acceptLo_not_le_lf]
 
+theorem acceptLo_not_le_cr (b0 : UInt8) : ¬ (acceptLo b0 ≤ 13) := by
+  intro h
+  exact absurd (UInt8.le_trans (acceptLo_ge b0) h) (by decide)
+
+/-- a carriage return is never part of a multi-byte sequence either -/
+theorem decodeRune_take_noCR (b0 : UInt8) (t : Bytes) (h : b0 ≠ 0x0D) :
+    (0x0D : UInt8) ∉ (b0 :: t).take (decodeRune (b0 :: t)).2 := by
+  rcases t with _ | ⟨b1, _ | ⟨b2, _ | ⟨b3, t⟩⟩⟩
+  all_goals
+    simp only [decodeRune]
+    repeat' split
+  all_goals
+    have h' : ¬ (13 : UInt8) = b0 := fun e => h e.symm
+    simp_all [isCont]
+  all_goals repeat' constructor
+  all_goals
+    intro e
+    subst e
+    simp_all [acceptLo_not_le_cr]
+
 /-! ### encode / decode round trip -/
 
 theorem ofNat_lt (n : Nat) (k : UInt8) : (UInt8.ofNat n < k) ↔ n % 256 < k.toNat := by
